@@ -332,8 +332,9 @@ fn execute_single_action(
             let source_path = source_root.join(&source.relative_path);
             let dest_path = dest_root.join(&dest.relative_path);
 
-            let source_conflict = unused_conflict_path(&source_path, timestamp, "source");
-            let dest_conflict = unused_conflict_path(&dest_path, timestamp, "dest");
+            let source_conflict =
+                unused_conflict_path(&source_path, &dest_path, timestamp, "source");
+            let dest_conflict = unused_conflict_path(&dest_path, &source_path, timestamp, "dest");
 
             std::fs::rename(&source_path, &source_conflict)?;
             std::fs::rename(&dest_path, &dest_conflict)?;
@@ -343,18 +344,26 @@ fn execute_single_action(
     }
 }
 
-/// A conflict name that is not taken: the plain one, or -- when a conflict copy made within the
-/// same second (or a file of the user's) already has that name -- one with a counter after the
-/// time stamp. Renaming onto an existing conflict copy would silently destroy that version.
-fn unused_conflict_path(path: &Path, timestamp: &str, side: &str) -> PathBuf {
+/// A conflict name that is not taken on either side: the plain one, or -- when a conflict copy
+/// made within the same second (or a file of the user's) already has that name -- one with a
+/// counter after the time stamp. Renaming onto an existing conflict copy would silently destroy
+/// that version; so would a file of that name on the OTHER side, which is copied across in the
+/// same run.
+fn unused_conflict_path(path: &Path, other_side: &Path, timestamp: &str, side: &str) -> PathBuf {
     let path = path.to_path_buf();
+    let other_side = other_side.to_path_buf();
+    let taken = |stamp: &str| {
+        std::fs::symlink_metadata(conflict_filename(&path, stamp, side)).is_ok()
+            || std::fs::symlink_metadata(conflict_filename(&other_side, stamp, side)).is_ok()
+    };
     let plain = conflict_filename(&path, timestamp, side);
-    if std::fs::symlink_metadata(&plain).is_err() {
+    if !taken(timestamp) {
         return plain;
     }
     (1u32..)
-        .map(|n| conflict_filename(&path, &format!("{}-{}", timestamp, n), side))
-        .find(|candidate| std::fs::symlink_metadata(candidate).is_err())
+        .map(|n| format!("{}-{}", timestamp, n))
+        .find(|stamp| !taken(stamp))
+        .map(|stamp| conflict_filename(&path, &stamp, side))
         .unwrap_or(plain)
 }
 
